@@ -92,6 +92,8 @@ func PredictResponse(handler string, script []string, id int, isHTTP bool, rname
 			ex.Pre = append(ex.Pre, `timeout:"`+arg+`"`)
 		case "ev":
 			ex.Events = append(ex.Events, "event."+rname+"."+arg)
+		case "evraw":
+			// the payload cannot be encoded: nothing is published
 		case "chg":
 			if typ == 2 {
 				panicked("str", "res: change event not allowed on Collections")
